@@ -3,6 +3,7 @@ package engines
 import (
 	"context"
 	"encoding/json"
+	"errors"
 	"fmt"
 	"runtime"
 	"runtime/debug"
@@ -327,6 +328,20 @@ func runC06(c *Cfg) {
 			}
 		}
 	}
+	// stop mode with item lists that are not []Result (plain lists through the constructor-option prep): post still
+	// receives every item prep produced, in order — also the ones behind the stop
+	for _, sh := range []string{"any", "ints", "strings", "maps", "ptrs", "named"} {
+		for _, cc := range []int{0, 1, 3} {
+			for _, n := range []int{4, 9} {
+				it := make([]ItemScript, n)
+				for j := range it {
+					it[j].K = 1
+				}
+				it[1+cc%2].K = 2
+				sc = append(sc, &BatchCase{Family: "shape-stop-mode", N: n, C: cc, Budget: 1, Stop: true, SetMode: true, Items: it, Shape: sh, Build: "compose", ExecStyle: []string{"result", "any"}[(n+cc)%2]})
+			}
+		}
+	}
 	// a failing post is still called once per run, whatever retry budget the node carries for its items
 	for _, budget := range []int{2, 3, 5} {
 		for _, cc := range []int{0, 2} {
@@ -484,6 +499,27 @@ func runC07(c *Cfg) {
 					r.Nontrivial(fmt.Sprintf("nc %d %d %d %d", oc, ic, n, f))
 				}
 			}
+		}
+	}
+	// all failures are the same error VALUE (a shared sentinel): an item whose budget is exhausted says nothing about
+	// another item's budget
+	for _, cc := range []int{0, 1, 2, 4} {
+		for _, budget := range []int{2, 3, 5} {
+			if !c.Mine(cc + budget) {
+				continue
+			}
+			n := 5
+			att, ok, err := sharedSentinelRun(cc, budget, n)
+			r.Eval()
+			r.Count("shared_sentinel.runs", 1)
+			sc := map[string]any{"family": "shared-sentinel-error", "c": cc, "budget": budget, "n": n}
+			for i := 1; i < n && err == nil; i++ {
+				if int(att[i]) != budget {
+					r.Violate("C07", "C07:shared-error-value-shortens-a-sibling's-budget", fmt.Sprintf("%d items, budget %d, concurrency %d, every failure is the same sentinel error value; item 0 fails for good, item %d is scripted to succeed on attempt %d: it got %d attempts (success slots: %d of %d expected) — a failing item never alters another item's processing", n, budget, cc, i, budget, att[i], ok, n-1), sc)
+					break
+				}
+			}
+			r.Nontrivial(fmt.Sprintf("ss %d %d", cc, budget))
 		}
 	}
 	// the context is cancelled inside an item's last permitted (failing) attempt: the item still gets its fallback
@@ -849,6 +885,55 @@ func nestedContinueRun(oc, ic, n, f int) (innerExec [][]int, innerErrSlots []int
 		}()
 		_, outerErr = flyt.Run(context.Background(), outer, flyt.NewSharedStore())
 	}()
+	return
+}
+
+// sharedSentinelRun: every failing attempt of every item returns the SAME error value (a package-level sentinel, as
+// real code does). Item 0 never succeeds; the others succeed on their last permitted attempt. They wait in their first
+// attempt until item 0 is through (its fallback opens the gate), so item 0's exhausted budget is history when their
+// own failures happen. Returns the attempts made per item and the number of success slots.
+func sharedSentinelRun(cc, budget, n int) (attempts []int32, okSlots int, err error) {
+	sentinel := errors.New("backend unavailable")
+	attempts = make([]int32, n)
+	gate := make(chan struct{})
+	var once sync.Once
+	bn := flyt.NewBatchNode(flyt.WithExecFallbackFunc(func(p any, e error) (any, error) {
+		once.Do(func() { close(gate) })
+		return nil, e
+	})).WithBatchConcurrency(cc).WithMaxRetries(budget).
+		WithPrepFunc(func(ctx context.Context, s *flyt.SharedStore) ([]flyt.Result, error) {
+			r := make([]flyt.Result, n)
+			for i := range r {
+				r[i] = flyt.NewResult(i)
+			}
+			return r, nil
+		}).
+		WithExecFuncAny(func(ctx context.Context, v any) (any, error) {
+			i := v.(int)
+			a := atomic.AddInt32(&attempts[i], 1)
+			if i == 0 {
+				return nil, sentinel
+			}
+			if a == 1 && cc > 1 {
+				select {
+				case <-gate:
+				case <-time.After(5 * time.Second):
+				}
+			}
+			if int(a) < budget {
+				return nil, sentinel
+			}
+			return i, nil
+		}).
+		WithPostFunc(func(ctx context.Context, s *flyt.SharedStore, items, results []flyt.Result) (flyt.Action, error) {
+			for _, r := range results {
+				if !r.IsError() {
+					okSlots++
+				}
+			}
+			return "done", nil
+		})
+	_, err = flyt.Run(context.Background(), bn, flyt.NewSharedStore())
 	return
 }
 
